@@ -343,6 +343,16 @@ func (r *Report) finish(out string, start time.Time, verbose bool) {
 		"wall_s":      round3(time.Since(start).Seconds()),
 		"violations":  violations,
 	}
+	if b, err := os.ReadFile(filepath.Join(r.Verif, "specs", "coverage_notes.json")); err == nil {
+		var notes map[string]map[string]interface{}
+		if json.Unmarshal(b, &notes) == nil {
+			if n, ok := notes[r.Prop]; ok {
+				for k, v := range n {
+					ev["coverage"].(map[string]interface{})[k] = v
+				}
+			}
+		}
+	}
 	if out != "" {
 		os.MkdirAll(filepath.Dir(out), 0o755)
 		b, _ := json.MarshalIndent(ev, "", " ")
